@@ -175,3 +175,13 @@ theorem completions_conserved (fuel : Nat) (c : CS) (o : Oracle) (out : List Out
           · rw [onRun_count _ _ _ _ _ _ _ _ cid hc (fun c' o' out' tmo' => ih c' o' out' tmo'), hq]
 
 #print axioms completions_conserved
+
+/-- after the error branch no action of any client is left in the queue -/
+theorem failAll_queue_empty (rest : List Action) (c : CS) (a : Action) (o : Oracle) (out : List Out) (tmo : Option Time)
+    (cid : Nat) (hc : cid ≠ 0) : qcount cid (failAll rest c a o out tmo).1.dev.acts = 0 := by
+  unfold failAll
+  dsimp only
+  have hr := reconnectDev_empty { c with dev := { c.dev with acts := [] } } tmo cid hc rfl
+  split
+  · simpa using hr
+  · simp
